@@ -551,3 +551,168 @@ def iteration_skips(f, head, sinks):
     propagates is the caller's business (pass those blocks as sinks if accepted)."""
     none_t, some_t, nb = loop_heads(f)[head]
     return path_avoiding(f, some_t, lambda x: x == nb or f.term(x)["k"] == "return", lambda x: x in sinks, (), from_succ=False)
+
+
+def decision_table(fn, ignore_calls=(), effect_calls=(), max_paths=40000, start_block=0):
+    """Semantic abstraction of a small loop-free function that survives control-flow restructuring: the set of rows
+    (path condition, effects, outcome).  Every acyclic path entry->return is walked with constant propagation for locals that
+    hold bool/int constants (so a hoisted `let missing = a || b; if missing {..}` contributes the atoms a, b and no atom of its
+    own); the path condition is the set of (atom, edge) of the switches whose outcome was not already decided by propagated
+    constants, atoms being described by where the tested value comes from (call name, compared quantities, parameter flag,
+    discriminant of a lookup).  Returns (rows, complete) - complete is False when the path bound was hit."""
+    from .lib import switch_info as _si
+
+    def short(t):
+        n = t.get("fn") or ""
+        n = re.sub(r"<[^<>]*>", "", n)
+        n = re.sub(r"<[^<>]*>", "", n)
+        return (n.rsplit("::", 2)[-2] + "::" + n.rsplit("::", 1)[-1]) if "::" in n else n
+
+    def desc_src(s, depth=0):
+        if s is None:
+            return "?"
+        if s.kind == "call":
+            nm = short(s.term)
+            if any(re.search(p, nm) for p in ignore_calls) and s.term["args"] and depth < 4:
+                return desc_src(src_of_operand(fn, s.term["args"][0]), depth + 1)
+            return "call(%s)" % nm + "".join("." + f for f in s.fields if not f.startswith("<") and f != "*")
+        if s.kind == "path":
+            root = ("self" if s.root == "self" else "p%d" % s.local) if (s.local is not None and s.local <= fn.d["argc"]) else "var"
+            return root + "".join("." + f for f in s.fields if not f.startswith("<") and f != "*")
+        if s.kind == "const":
+            return "const"
+        if s.kind == "rv":
+            rv = s.rv
+            if rv["k"] == "bin":
+                return "%s(%s,%s)" % (rv["op"], desc_src(src_of_operand(fn, rv["a"]), depth + 1) if depth < 3 else "_",
+                                      desc_src(src_of_operand(fn, rv["b"]), depth + 1) if depth < 3 else "_")
+            if rv["k"] == "un":
+                return "%s(%s)" % (rv["op"], desc_src(src_of_operand(fn, rv["a"]), depth + 1) if depth < 3 else "_")
+            if rv["k"] == "cast" and depth < 4:
+                return desc_src(src_of_operand(fn, rv["a"]), depth + 1)
+            if rv["k"] == "discr":
+                return "discr"
+        return s.kind
+
+    atom_cache = {}
+
+    def atom(b):
+        if b in atom_cache:
+            return atom_cache[b]
+        si = _si(fn, b)
+        a = "?"
+        if si is not None:
+            if si["kind"] == "discr":
+                a = "discr[%s](%s)" % (si["ty"].split("<")[0].rsplit("::", 1)[-1], desc_src(si["src"]))
+            else:
+                a = desc_src(si["src"])
+        atom_cache[b] = a
+        return a
+
+    rows = set()
+    count = [0]
+    complete = [True]
+
+    def const_of(o, env):
+        if "c" in o:
+            return o["c"].strip()
+        p = op_place(o)
+        if p is not None and "p" not in p and p["l"] in env:
+            return env[p["l"]]
+        return None
+
+    def walk(b, env, conds, effects, seen):
+        if count[0] > max_paths:
+            complete[0] = False
+            return
+        while True:
+            if b in seen:
+                return          # back edge: loops are not abstracted
+            seen = seen | {b}
+            blk = fn.blocks[b]
+            for st in blk["st"]:
+                lhs = st["lhs"]
+                if "p" in lhs:
+                    continue
+                rv = st["rv"]
+                c = None
+                if rv["k"] == "use":
+                    c = const_of(rv["a"], env)
+                elif rv["k"] == "un" and rv["op"] == "Not":
+                    v = const_of(rv["a"], env)
+                    if v in ("const true", "true"):
+                        c = "const false"
+                    elif v in ("const false", "false"):
+                        c = "const true"
+                if lhs["l"] == 0 and rv["k"] == "agg":
+                    c = "%s(%s)" % (rv["n"].rsplit("::", 1)[-1], ",".join((const_of(o, env) or "_") for o in rv.get("ops", [])))
+                if c is not None:
+                    env = dict(env)
+                    env[lhs["l"]] = c
+                elif lhs["l"] in env:
+                    env = dict(env)
+                    del env[lhs["l"]]
+            t = blk["t"]
+            k = t["k"]
+            if k == "return":
+                count[0] += 1
+                rows.add((frozenset(conds), tuple(effects), env.get(0, "var")))
+                return
+            if k == "call":
+                nm = short(t)
+                if "p" not in t["dest"] and t["dest"]["l"] in env:
+                    env = dict(env)
+                    del env[t["dest"]["l"]]
+                if any(re.search(p, nm) for p in effect_calls):
+                    effects = effects + [nm]
+                if "to" not in t:
+                    return
+                b = t["to"]
+                continue
+            if k == "switch":
+                v = const_of(t["d"], env)
+                if v is None:
+                    # discriminant of a local whose value is a known aggregate is not tracked: treat as undecided
+                    pass
+                if v is not None:
+                    val = {"const true": "1", "true": "1", "const false": "0", "false": "0"}.get(v)
+                    if val is None:
+                        m = re.match(r"(?:const )?(-?\d+)", v)
+                        val = m.group(1) if m else None
+                    if val is not None:
+                        tg = None
+                        for cv, ct in t["cases"]:
+                            if cv == val:
+                                tg = ct
+                        b = tg if tg is not None else t["else"]
+                        continue
+                a = atom(b)
+                # name the `else` edge after the one value it stands for when the domain is known (bool, Option, Result)
+                dom = None
+                si_ = _si(fn, b)
+                if t.get("dt") == "bool":
+                    dom = {"0", "1"}
+                elif si_ is not None and si_["kind"] == "discr" and si_["ty"].startswith(("std::option::Option<", "std::result::Result<")):
+                    dom = {"0", "1"}
+                else_label = "else"
+                if dom is not None:
+                    missing = dom - {cv for cv, _ in t["cases"]}
+                    if len(missing) == 1:
+                        else_label = list(missing)[0]
+                targets = [(cv, ct) for cv, ct in t["cases"]] + [(else_label, t["else"])]
+                done = set()
+                for cv, ct in targets:
+                    if fn.term(ct)["k"] == "unreachable" and not fn.blocks[ct]["st"]:
+                        continue
+                    if (cv, ct) in done:
+                        continue
+                    done.add((cv, ct))
+                    walk(ct, env, conds + [(a, cv)], effects, seen)
+                return
+            if k in ("goto", "drop", "assert", "falseedge", "falseunwind", "yield"):
+                b = t["to"]
+                continue
+            return
+
+    walk(start_block, {}, [], [], frozenset())
+    return rows, complete[0]
